@@ -273,6 +273,8 @@ class Sectionable(BaseObject):
                 raise ValueError("Section with name '%s' already exists." % section.name)
 
             self._validate_child(section)
+            if section._parent is not None:
+                section._parent.remove(section)
             self._sections.insert(position, section)
             section._parent = self
         else:
@@ -287,6 +289,8 @@ class Sectionable(BaseObject):
         from odml.section import BaseSection
         if isinstance(section, BaseSection):
             self._validate_child(section)
+            if section._parent is not None and section.name not in self._sections:
+                section._parent.remove(section)
             self._sections.append(section)
             section._parent = self
         elif isinstance(section, Iterable) and not isinstance(section, str):
